@@ -16,6 +16,9 @@ func ConvertToValue(structure json.Structure) value.Primary {
 	var p value.Primary
 
 	switch structure.(type) {
+	case nil:
+		// an empty JSON text decodes to no structure at all
+		p = value.NewNull()
 	case json.Number:
 		p = value.NewFloat(structure.(json.Number).Raw())
 	case json.Integer:
